@@ -99,10 +99,10 @@ func sceneNewBatch(o ReqOpts) {
 		chk("C09 C10", vf.All(post.BatchCounter == bc+1, post.BatchState == types.BATCHRUNNING, post.State == types.RUNNING), "batch-started")
 		chk("C12 C02 C08 C16 C11 C01", vf.All(int(post.BatchRequestCount) == cnt, post.BatchResponseCount == 0, post.BatchResponseThreshold == th), "batch-counts")
 		chk("C11", k.HasRequestBatchExpiration(ctx, id), "expiry-queued")
-		chk("C11 C08 C10", expiryAt(k, ctx, id, s.H+timeout), "expiry-at-issue-plus-timeout")
+		chk("C11 C08 C10 C12 C04", expiryAt(k, ctx, id, s.H+timeout), "expiry-at-issue-plus-timeout")
 		chk("C12", vf.All(len(s.Log.Resp) == 0, len(s.Log.State) == 0), "no-callback-at-issue")
 	} else {
-		chk("C06 C16", vf.All(nreq == 0, nact == 0), "no-requests")
+		chk("C06 C16 C10 C01", vf.All(nreq == 0, nact == 0), "no-requests")
 		chk("C06 C02 C05", balC1.Equal(s.BalC0), "no-debit")
 		chk("C01", esc1.Equal(s.Esc0), "escrow-unchanged")
 		if !running {
@@ -112,7 +112,7 @@ func sceneNewBatch(o ReqOpts) {
 			chk("C12", vf.All(len(s.Log.Resp) == 0, len(s.Log.State) == 0), "no-callback-when-not-running")
 		} else if enough {
 			vf.Reach("paused-for-funds")
-			chk("C06 C09", vf.All(post.State == types.PAUSED, post.BatchCounter == bc, post.BatchState == types.BATCHCOMPLETED), "paused-for-funds")
+			chk("C06 C09 C10 C01", vf.All(post.State == types.PAUSED, post.BatchCounter == bc, post.BatchState == types.BATCHCOMPLETED), "paused-for-funds")
 			chk("C11", !k.HasRequestBatchExpiration(ctx, id), "no-expiry-when-paused")
 			if pre.ModuleName != "" {
 				chk("C12", vf.All(len(s.Log.State) == 1, len(s.Log.Resp) == 0), "state-callback-on-pause")
@@ -209,6 +209,13 @@ func sceneExpiry(o ReqOpts) {
 		}
 	}
 	chk("C04", len(sl) == nFail, "one-slash-event-per-failure")
+
+	// the volume a provider has delivered to the consumer is not per context: it survives the batch and the context
+	if o.Vol {
+		for j := 0; j < s.N; j++ {
+			chk("C07", k.GetRequestVolume(ctx, s.Consumer, Svc, s.Provs[j]) == s.Vol0[j], "delivered-volume-survives-expiry")
+		}
+	}
 
 	// ---- clean-up: nothing of the batch remains
 	nreq, nresp, nact := countRecords(k, ctx, id, bc)
